@@ -1,3 +1,3 @@
 #!/bin/sh
 # replays this counterexample against the real build
-cd /tmp/seedonly_C02f_28586 && VERIF_SCRIPT=/verif/replays/C02/VHarnessSwapC02_d9d37a56_0/script.json VERIF_RAW_SALT=0 GOFLAGS=-mod=mod GOPROXY=off go test -vet=off -count=1 -overlay /verif/replays/C02/VHarnessSwapC02_d9d37a56_0/overlay.json -run ^TestVerifReplay_VHarnessSwapC02$ -v ./mint
+cd /tmp/seedrepo_C02f && VERIF_SCRIPT=/verif/replays/C02/VHarnessSwapC02_d9d37a56_0/script.json VERIF_RAW_SALT=0 GOFLAGS=-mod=mod GOPROXY=off go test -vet=off -count=1 -overlay /verif/replays/C02/VHarnessSwapC02_d9d37a56_0/overlay.json -run ^TestVerifReplay_VHarnessSwapC02$ -v ./mint
